@@ -330,13 +330,24 @@ type outcome struct {
 	full      func(k *big.Int) string // optional: "" iff the complete output is the one the standard defines for nonce k
 	// follow (optional) continues on the very object that made the call: the later steps of the
 	// protocol (key confirmation of a key exchange, a Diffie-Hellman with a freshly generated key)
-	// are run against an honest peer computed by the reference model for scalar k; "" iff the
-	// object behaves as the standard defines for ephemeral secret k. It changes the object's
-	// state (that is part of an object history) and is used by c12.history only.
-	follow func(k *big.Int) string
-	// live (optional, key generators) re-reads the canonical bytes (out) from the returned key
-	// object: they must not change while later calls are made (two keys sharing a buffer share bits).
+	// are run against an honest peer computed by the reference model for scalar k. why is "" iff
+	// the object behaves as the standard defines for ephemeral secret k. With opt.lenient a step
+	// the object REFUSES (error, no key) is not judged but reported as refused: after a failed or
+	// refused call in between, the property does not say whether the earlier session survives, only
+	// that nothing may come out of it that the sampled scalar does not explain. follow changes the
+	// object's state (that is part of an object history) and is used by c12.history only.
+	follow func(k *big.Int, opt followOpt) (why string, refused error)
+	// live (optional) uses, NOW and with the kept object, what the call returned: the canonical bytes
+	// of a generated key re-read from the key object, "verifies=true" for a signature checked with the
+	// key object's public half, the plaintext a ciphertext decrypts to with the key object. The answer
+	// must stay what it was when the call returned while later (failing) calls are made on the object.
 	live func() []byte
+}
+
+// followOpt selects how follow continues a key exchange.
+type followOpt struct {
+	lenient  bool // a refusal by the object is acceptable (continuation after a failed / refused call)
+	withhold bool // do not hand the peer's optional confirmation value to the object even if the exchange uses confirmation
 }
 
 // call is one prepared invocation (inputs fixed); run may be executed repeatedly on
